@@ -82,6 +82,14 @@ struct SimOS
 	std::map<std::string, SimFileP> ns ;
 	std::map<int, SimFd> fds ;
 	int next_fd = 1000 ;
+	// pass-through mode (validation of this stub against the real kernel): while a library call runs, every wrapped system call
+	// goes to the kernel on real files under pt_root; the namespace is mirrored out before the call and read back after it
+	bool passthrough = false ;
+	std::string pt_root ;
+	std::map<std::string, uint64_t> pt_synced ;
+	void pt_sync_out () ;
+	void pt_sync_in () ;
+	void pt_wipe () ;
 	bool fd_zero = false ;			// plan option: descriptor number 0 is free (stdin closed) and is handed out first
 	// clock
 	int64_t epoch0 = 1700000000 ;
